@@ -10,12 +10,15 @@ META = {
                  "call's result and evaluates the payload-tag equality monitor; a byte-level model of the Fetch Batch (Model/BatchBytes.lean over Base/Reader: header, "
                  "magic-0/1 messages, Read/ReadMessage callbacks, Close) with the theorem that a kept conn has consumed exactly the frame, and a generic theorem for every program in "
                  "message_reader.go's size-threading discipline (Model/WireProg.lean); regenerated go/ast ties: 25 Boolean shape facts and 12 decision tables obtained by "
-                 "symbolic execution of waitResponse, do, doRequest, ApiVersions, ReadBatchWith, Batch.close, conn.run, RoundTrip and the pool functions, each recomputed from the models by `decide`",
+                 "symbolic execution of waitResponse, do, doRequest, ApiVersions, ReadBatchWith, Batch.close, conn.run, RoundTrip and the pool functions, each recomputed from the models by `decide`; "
+                 "a model of the two deadline objects sharing the socket's single read deadline (Model/ConnDeadline.lean) with the isolation theorem, its discipline checked on the same tables; "
+                 "correlation-id wrap (2^31, 2^32) exercised on the real Conn and protocol.Conn with preset counters",
     "level_claimed": {
         "category": "proof",
         "text": "Kernel-checked for every event sequence and every response stream (any order, duplicates, foreign ids): a call that obtains a frame obtained the frame at a "
                 "position nobody else obtained, whose correlation id is the id it wrote, and holds the read lock alone while parsing it; wire ids of calls less than 2^32 apart "
-                "differ; with a broker that labels frames truthfully the delivered payload tag is the request's tag and no waiter is ever stranded; a Batch that keeps its conn "
+                "differ; with a broker that labels frames truthfully the delivered payload tag is the request's tag and no waiter is ever stranded (otherwise stranded waiters are released by the earliest deadline and by nothing else); nothing is taken from a conn after a read failure; "
+                "while an operation holds the read lock the socket's read deadline is the current value of that operation's own deadline object; a Batch that keeps its conn "
                 "has consumed exactly the declared frame on every read path (magic 0/1 byte-exact, every other reader by the size-threading discipline); a pooled connection in the idle stack has consumed a response "
                 "for every request written on it and never runs two exchanges at once; an abandoned call's frame is never delivered to another call.",
         "design_ref": "DESIGN.md §7 C06",
